@@ -232,6 +232,8 @@ func wireOffence(w []PeerChunk, virtual map[uint32]bool) string {
 //	stale   chunks secured with a token that an answered OPN request earlier on the wire superseded
 //	failed  OPN request chunks that were never answered
 //	abort   numbers in `burned` (counted as if their chunk had been written)
+//	overlap OPN request chunks that repeat the sequence number of an earlier answered OPN request (a second
+//	        renewal started from the superseded token's stale counter) and the chunks under the token issued for them
 func CheckWire(wire []PeerChunk, burned []uint32, issued map[uint32]uint32, initTok uint32) WireVerdict {
 	return CheckWireT(wire, burned, nil, issued, initTok)
 }
@@ -253,17 +255,29 @@ func CheckWireT(wire []PeerChunk, burned []uint32, truncated []uint32, issued ma
 	for _, b := range burned {
 		virtual[b] = true
 	}
-	for mask := 1; mask < 8; mask++ {
-		useStale, useFailed, useAbort := mask&1 != 0, mask&2 != 0, mask&4 != 0
+	for mask := 1; mask < 16; mask++ {
+		useStale, useFailed, useAbort, useOverlap := mask&1 != 0, mask&2 != 0, mask&4 != 0, mask&8 != 0
 		if useAbort && len(burned) == 0 {
 			continue
 		}
 		cur := initTok
 		superseded := map[uint32]bool{}
 		var w []PeerChunk
-		nStale, nFailed := 0, 0
+		nStale, nFailed, nOverlap := 0, 0, 0
+		opnSeq := map[uint32]bool{}
+		overlapTok := map[uint32]bool{}
 		for _, c := range wire {
+			if useOverlap && c.Type != "OPN" && overlapTok[c.TokenID] {
+				nOverlap++
+				continue
+			}
 			if c.Type == "OPN" {
+				if tok, ok := issued[c.ReqID]; ok && useOverlap && opnSeq[c.Seq] {
+					overlapTok[tok] = true
+					nOverlap++
+					continue
+				}
+				opnSeq[c.Seq] = true
 				if tok, ok := issued[c.ReqID]; ok {
 					superseded[cur] = true
 					cur = tok
@@ -280,7 +294,7 @@ func CheckWireT(wire []PeerChunk, burned []uint32, truncated []uint32, issued ma
 			}
 			w = append(w, c)
 		}
-		if (useStale && nStale == 0) || (useFailed && nFailed == 0) {
+		if (useStale && nStale == 0) || (useFailed && nFailed == 0) || (useOverlap && nOverlap == 0) {
 			continue
 		}
 		var virt map[uint32]bool
@@ -296,6 +310,9 @@ func CheckWireT(wire []PeerChunk, burned []uint32, truncated []uint32, issued ma
 			}
 			if useAbort {
 				v.Sigs = append(v.Sigs, "C11.aborted-send-burns-number")
+			}
+			if useOverlap {
+				v.Sigs = append(v.Sigs, "C11.overlapping-renewals")
 			}
 			v.Explained = true
 			return v
